@@ -15,6 +15,7 @@ INITS = {
 }
 INITS["wt-loose0"] = {"loose": 0, "nonbare": True}
 INITS["wt-absent"] = {"pack_other": True, "nonbare": True}
+PACKED_INIT = {"loose0": (0, None), "packed0": (None, 0), "loose1+packed0": (1, 0)}
 INIT_VALUE = {"absent": None, "loose0": 0, "packed0": 0, "loose1+packed0": 1, "loose0+head": 0, "wt-loose0": 0, "wt-absent": None}
 MODELLED = ("absent", "loose0", "wt-loose0", "wt-absent")
 
@@ -58,6 +59,83 @@ def model_schedule(actors, trace):
             if stage[a] in (3, 4):
                 out.append(a); stage[a] = 9
     return out
+
+
+def packed_schedule(actors, trace):
+    """the interleaving of the steps of Model/PackedRefs.v (pack_refs: lock packed-refs, read the ref, rewrite, lock the ref,
+    prune, unlock; updates: lock the ref, compare, write | unlock) read off the real trace; None where the trace leaves the
+    model (a directory that vanished under an actor, a ref that has no value)"""
+    R, RL, P, PL = "refs/heads/main", "refs/heads/main.lock", "packed-refs", "packed-refs.lock"
+    stage = [0] * len(actors)
+    out = []
+    END = 99
+    for t in trace:
+        a, call, arg, outcome = t.split(":", 3)
+        a = int(a)
+        if "logs/" in arg:
+            continue
+        name = arg.split("r.git/", 1)[-1]
+        kind = actors[a][0]
+        st = stage[a]
+        if kind == "pack":
+            if st == 0 and name == PL and call == "open":
+                if outcome not in ("ok", "FileExistsError"):
+                    return None
+                out.append(a); stage[a] = 1 if outcome == "ok" else END
+            elif st == 1 and name == R and call == "open":
+                out.append(a); stage[a] = 2
+            elif st in (1, 2) and name == PL and call == "replace":
+                if st == 1:
+                    return None             # the ref was not listed: nothing of it to pack
+                out.append(a); stage[a] = 3
+            elif st == 1 and name == PL and call in ("remove", "unlink"):
+                return None
+            elif st == 3 and name == RL and call == "open":
+                if outcome == "FileNotFoundError":
+                    # no directory for the loose file, hence no loose file and nobody holding its lock: the model's
+                    # lock / compare / unlock steps happen at once and change nothing
+                    out += [a, a, a]; stage[a] = END
+                    continue
+                if outcome not in ("ok", "FileExistsError"):
+                    return None
+                out.append(a); stage[a] = 4 if outcome == "ok" else END
+            elif st == 4 and name == R and call == "open":
+                out.append(a); stage[a] = 5
+            elif st in (4, 5) and name == RL and call in ("remove", "unlink"):
+                if st == 4:
+                    return None
+                out.append(a); stage[a] = END
+        elif kind in ("cas", "set"):
+            if st == 0 and name == RL and call == "open":
+                if outcome not in ("ok", "FileExistsError"):
+                    return None
+                out.append(a); stage[a] = 1 if outcome == "ok" else END
+            elif st == 1 and name == R and call == "open":
+                out.append(a); stage[a] = 2
+            elif st in (1, 2) and name == RL and call == "replace":
+                if st == 1:
+                    out.append(a)           # an unconditional update compares nothing: the model's check step is a no-op
+                out.append(a); stage[a] = END
+            elif st in (1, 2) and name == RL and call in ("remove", "unlink"):
+                if st == 1:
+                    return None
+                out.append(a); stage[a] = END
+        elif kind == "read":
+            if st == 0 and name == R and call == "open":
+                out.append(a); stage[a] = END
+        else:
+            return None
+    if any(stage[a] != END for a in range(len(actors)) if actors[a][0] != "read"):
+        return None
+    return out
+
+
+def packed_ops(actors):
+    out = []
+    for a in actors:
+        k = a[0]
+        out.append({"pack": "0:0:0", "cas": "1:%s:%s", "set": "2:%s:0", "read": "4:0:0"}[k] % tuple(x for x in a[1:3] if isinstance(x, int)))
+    return ",".join(out)
 
 
 def model_ops(actors):
@@ -144,6 +222,9 @@ def scenarios(thorough):
         add(init, ("commit", 1), ("commit", 2), ("read",))
     add("wt-loose0", ("commit", 1), ("cas", 0, 3))
     add("wt-loose0", ("commit", 1), ("commit", 2), ("commit", 3))
+    # two maintenance processes and one writer: every single pre-emption
+    add("packed0", ("pack",), ("set", 1), ("pack",))
+    add("loose0", ("pack",), ("cas", 0, 1), ("pack",))
     if thorough:
         for init in ("loose0", "packed0"):
             add(init, ("cas", 0, 1), ("cas", 0, 2), ("cas", 1, 3))
@@ -170,8 +251,12 @@ def run(rep):
     model = Model(PROP)
     scen = scenarios(thorough)
     reqs = [{"fn": "explore", "init": INITS[i], "actors": a, "preempt": 2 if not thorough else 4, "max_runs": 220 if not thorough else 20000} for i, a in scen]
+    for q in reqs:
+        if sum(1 for a in q["actors"] if a[0] == "pack") >= 2 and len(q["actors"]) == 3:
+            q.update(preempt=1, max_runs=3000 if not thorough else 20000)
     total, unclean = 0, {}
     lines, plan = [], []
+    packed_cases = []
     for (iname, actors), q, r in zip(scen, reqs, impl.run(reqs)):
         if "runs" not in r:
             rep.fail("explore-worker", "exploration failed: %r" % (r,), {"init": iname, "actors": actors})
@@ -204,6 +289,8 @@ def run(rep):
                     cls = "not-linearizable"
                 rep.fail(cls, "no order of the operations consistent with real time explains results %s and final value %s (initial %s)" % (
                     [o["res"] for o in x["ops"]], x["final"], INIT_VALUE[iname]), full)
+            if iname in PACKED_INIT and any(a[0] == "pack" for a in actors) and all(a[0] in ("pack", "cas", "set", "read") and "via-head" not in a for a in actors):
+                packed_cases.append(full)
             if iname in MODELLED and all(a[0] in ("cas", "add", "set", "del", "commit", "read") for a in actors):
                 ms = model_schedule(actors, x["trace"])
                 if ms is None:
@@ -212,6 +299,25 @@ def run(rep):
                 lines.append("run %s %s %s" % ("-" if r0 is None else r0, model_ops(spec_actors), ".".join(map(str, ms)) or "_"))
                 res = ",".join("T" if o["res"] is True else "F" if o["res"] is False else "L" if o["res"] == "locked" else "S" + ("-" if o["res"] is None else str(o["res"])) for o in x["ops"])
                 plan.append((full, "%s | %s" % (res, "-" if x["final"] is None else x["final"])))
+    # the loose + packed-refs model on the interleavings of scenarios made of pack_refs, updates and reads
+    plines, pplan = [], []
+    for full in packed_cases:
+        ms = packed_schedule(full["actors"], full["trace"])
+        if ms is None:
+            continue
+        l0, p0 = PACKED_INIT[full["init"]]
+        plines.append("prun %s %s %s %s" % ("-" if l0 is None else l0, "-" if p0 is None else p0, packed_ops(full["actors"]), ".".join(map(str, ms)) or "_"))
+        res = ",".join("*" if a[0] == "read" else "1" if r is True else "2" if r is False else "3" if r == "locked" else "?" for a, r in zip(full["actors"], full["results"]))
+        pplan.append((full, "%s | %s | %s" % (res, "-" if full["loose"] is None else full["loose"], "-" if full["packed"] is None else full["packed"])))
+    for (full, want), m in zip(pplan, model.run(plines)):
+        parts = [x.strip() for x in m.split("|")]
+        if len(parts) == 3:
+            codes = parts[0].split(",")
+            parts[0] = ",".join("*" if a[0] == "read" else c for a, c in zip(full["actors"], codes))
+        got = " | ".join(parts)
+        if got != want:
+            rep.disagree("pack_refs / updates under schedule vs PackedRefs.run", full, got, want)
+    rep.extra["histories_run_through_packed_model"] = len(plines)
     for (full, want), m in zip(plan, model.run(lines)):
         parts = [p.strip() for p in m.split("|")]
         got = "%s | %s" % (parts[0], parts[1]) if len(parts) >= 2 else m
